@@ -2,6 +2,7 @@
 import itertools
 
 from vp import explore_conc, reqs
+from vp.http import R
 from vp.names import A, K, P
 
 T1 = 'HW_CPU_X86_AVX'
@@ -40,6 +41,15 @@ def ops(g, traits, has_inv):
         reqs.reshaper({P(1): (g, {'VCPU': {'total': 7}})},
                       {K(4): {'allocs': {P(1): {'VCPU': 1}}, 'cgen': None}},
                       tag='reshaper(g) with allocations on P1'),
+        # a write that carries no generation and must leave it alone, in flight with the others
+        R('PUT', '/resource_providers/' + P(1), {'name': 'renamed-p1'}, mv='1.39',
+          tag='PUT provider (rename)'),
+        # a generation the provider has not reached yet (held from an earlier incarnation, or
+        # guessed): only valid if another write makes it current before the commit
+        reqs.put_invs(P(1), g + 1, {'VCPU': {'total': 5}}, tag='PUT inventories(g+1)'),
+        reqs.put_traits(P(1), g + 1, [T1, T2], tag='PUT traits(g+1)'),
+        reqs.put_aggs(P(1), g + 1, [A(1), A(2)], tag='PUT aggregates(g+1)'),
+        reqs.reshaper({P(1): (g + 1, {'VCPU': {'total': 5}})}, {}, tag='reshaper(g+1)'),
     ]
     return o
 
@@ -62,7 +72,7 @@ def scenarios(quick, seed=0):
                         'max_exec': 4000})
         if not quick:
             # triples of the generation-carrying and generation-deriving writers
-            tri = [0, 2, 4, 6, 10, 12, 13]
+            tri = [0, 2, 4, 6, 10, 12, 13, 15]  # 15 = rename
             for a, b, c in itertools.combinations(tri, 3):
                 out.append({'name': '%s: %s || %s || %s' % (name, o[a]['tag'], o[b]['tag'],
                                                             o[c]['tag']),
@@ -76,10 +86,11 @@ def run(ctx):
     sc = scenarios(ctx.quick, ctx.seed)
     tot = explore_conc.run_scenarios(ctx, 'C05', sc)
     fill(ctx, tot, len(sc), 'three start states (bare provider / inventory / inventory+traits+'
-         'aggregates+consumer) x all unordered pairs (with repetition) of 15 provider-writing '
+         'aggregates+consumer) x all unordered pairs (with repetition) of 20 provider-writing '
          'operations (PUT inventories, PUT inventory, POST/DELETE inventory, DELETE inventories, PUT '
-         'traits changing/no-op, DELETE traits, PUT aggregates 1.19/1.18, reshaper, PUT allocations; '
-         'generation-carrying ones with current and stale generation) x ALL interleavings at '
+         'traits changing/no-op, DELETE traits, PUT aggregates 1.19/1.18, reshaper, PUT allocations, '
+         'PUT provider (rename, carries no generation); generation-carrying ones with current, stale and not-yet-'
+         'reached generation) x ALL interleavings at '
          'top-level-transaction granularity%s' % (
              '' if ctx.quick else '; plus triples with preemption bound 3'))
 
